@@ -89,6 +89,7 @@ def run(ctx):
         ctx.require_model_ok(full, "WhereSelectsExactly, PolaritiesComplement")
     ctx.ev.set("exhaustive", True)
 
+    ctx.ev.set("simulated_filter_behaviours", len(sim.behaviours))
     deep = [b for b in sim.behaviours if len(b) >= 4]
     shallow = list(beh.behaviours)
     rnd.shuffle(deep)
